@@ -1,6 +1,9 @@
 #!/bin/sh
 # seed_sweep.sh — apply every seeded change (seeded/*/patch.diff) in the scratch environment and run
 # the check of its property (quick tier); prints one line per seed: caught / MISSED / does-not-apply.
+# the scratch copy is made once, before the first seed: edits made while the sweep runs stay out
+/verif/tools/try_seed_env.sh none >/dev/null 2>&1
+export NOSYNC=1
 for d in /verif/seeded/*/; do
   id=$(basename $d)
   P=$(python3 -c "import json;print(json.load(open('$d/meta.json'))['property'])" 2>/dev/null)
